@@ -168,6 +168,15 @@ def ensure_consumer(ctx, consumer_uuid, project_id, user_id,
         # consumer record
         consumer, created_new_consumer = _create_consumer(
             ctx, consumer_uuid, proj, user, cons_type_id)
+        if requires_consumer_generation and not created_new_consumer:
+            # A racing request created the consumer after we looked it up, so
+            # the caller's expectation that the consumer does not exist (a
+            # null consumer generation) no longer holds.
+            raise webob.exc.HTTPConflict(
+                'consumer generation conflict - '
+                'expected %(expected_gen)s but got null' %
+                {'expected_gen': consumer.generation},
+                comment=errors.CONCURRENT_UPDATE)
 
     # Also return the project, user, and consumer type from the request to use
     # for rollbacks.
